@@ -603,7 +603,12 @@ func c45runWorker(run *ev.Run, e *c45env, so *shardOut, cfgKind, cfg string, idx
 	k := map[string]int{"run2": 2, "run3": 3}[cfgKind]
 	limit := e.m.MC.ChainConfig.MaxBlockCost()
 	if !(base+k*sendCost < limit && limit <= base+(k+1)*sendCost) {
-		ev.Fatal("%s: cost layout changed (built-ins %d, send %d, limit %d): adjust c45Limits", cfgKind, base, sendCost, limit)
+		// the tree under test prices or composes the built-in transactions differently: this small-limit
+		// configuration does not bind where it was designed to; skip it (reported as a cap), the
+		// other configurations still run
+		so.Capped = fmt.Sprintf("%s: cost layout differs (built-ins %d, send %d, limit %d), configuration skipped", cfgKind, base, sendCost, limit)
+		so.Counters["run_config_skipped_cost_layout_differs"]++
+		return
 	}
 	so.Counters["run_config_builtin_cost"] = int64(base)
 	gens := []int{1}
